@@ -13,9 +13,12 @@ use std::collections::BTreeMap;
 use std::io::Write as _;
 use std::path::{Path, PathBuf};
 use std::process::{Command, Stdio};
-use std::sync::{Arc, Mutex, atomic::{AtomicUsize, Ordering}};
 use std::time::{Duration, Instant};
 use verif_harness::util::*;
+
+#[path = "../forkrun.rs"]
+mod forkrun;
+use forkrun::*;
 
 // -------------------------------------------------------------------------------------------------
 // seeds
@@ -259,112 +262,7 @@ fn generate(seeds: &[Seed], budget: usize, tier: &str, rng: &mut Rng) -> Vec<Mut
 }
 
 // -------------------------------------------------------------------------------------------------
-// running through the command line
-
-#[derive(Clone, Debug)]
-struct Outcome { ok: bool, class: String, detail: String, rc: i32 }
-
-fn hex(b: &[u8]) -> String { let mut s = String::with_capacity(b.len() * 2); for x in b { s.push_str(&format!("{:02x}", x)); } s }
-fn unhex(s: &str) -> Vec<u8> { (0..s.len() / 2).map(|i| u8::from_str_radix(&s[2 * i..2 * i + 2], 16).unwrap_or(0)).collect() }
-
-/// `src/formats/std.rs` from `/repo/src/formats/std.rs`, `image-0.23.14/src/buffer.rs` from a registry path
-fn short_path(p: &str) -> String {
-    let root = repo_root();
-    if let Some(r) = p.strip_prefix(&format!("{}/", root)) { return r.to_string(); }
-    if let Some(i) = p.find("/src/") {
-        // keep the crate directory name
-        let head = &p[..i];
-        let krate = head.rsplit('/').next().unwrap_or("");
-        if krate.is_empty() || !head.contains("registry") && !head.contains("rustc") && !head.contains("rustlib") { return p[i + 1..].to_string(); }
-        // drop the version suffix of registry crates
-        let base: String = krate.split('-').take_while(|s| !s.chars().next().map(|c| c.is_ascii_digit()).unwrap_or(false)).collect::<Vec<_>>().join("-");
-        return format!("{}{}", if base.is_empty() { krate.to_string() } else { base }, &p[i..]);
-    }
-    if p.contains("/library/") { return p[p.find("/library/").unwrap() + 1..].to_string(); }
-    p.to_string()
-}
-
-fn norm_msg(m: &str) -> String {
-    // digits and quoted payloads vary with the input; the site and the wording identify the defect
-    let mut out = String::new(); let mut prev_digit = false;
-    for c in m.chars() {
-        if c.is_ascii_digit() { if !prev_digit { out.push('N'); } prev_digit = true; }
-        else { prev_digit = false; out.push(if c == '\n' || c == '\t' { ' ' } else { c }); }
-    }
-    let out = out.replace("0xN", "N").replace("-N", "N");
-    let mut s: String = out.chars().take(70).collect();
-    while s.ends_with(' ') { s.pop(); }
-    s
-}
-
-/// the innermost frame of the backtrace that belongs to truth itself (not its generic io helpers)
-fn truth_frame(bt: &str) -> Option<String> {
-    for l in bt.lines() {
-        let l = l.trim();
-        let sym = match l.split_once(": ") { Some((n, s)) if n.chars().all(|c| c.is_ascii_digit()) => s, _ => continue };
-        if !(sym.starts_with("truth::") || sym.starts_with("<truth::")) { continue; }
-        if sym.starts_with("truth::io::") || sym.starts_with("<truth::io::") || sym.contains("truth::diagnostic::") || sym.contains("truth::error::") { continue; }
-        let mut f = sym.replace("::{{closure}}", "");
-        if let Some(i) = f.find("::h") { if f.len() - i == 19 { f.truncate(i); } }
-        // `<A as B>::f` -> `A::f`
-        if f.starts_with('<') {
-            if let Some(i) = f.find(" as ") { if let Some(j) = f.find(">::") { f = format!("{}::{}", &f[1..i], &f[j + 3..]); } }
-        }
-        let segs: Vec<&str> = f.split("::").collect();
-        let keep = segs[segs.len().saturating_sub(3)..].join("::");
-        return Some(keep);
-    }
-    None
-}
-
-/// the function enclosing a source line (fallback when there is no usable backtrace)
-fn enclosing_fn(site: &str) -> Option<String> {
-    let mut it = site.rsplitn(3, ':'); let _col = it.next()?; let line: usize = it.next()?.parse().ok()?; let file = it.next()?;
-    let text = std::fs::read_to_string(file).ok()?;
-    let lines: Vec<&str> = text.lines().collect();
-    for k in (0..line.min(lines.len())).rev() {
-        if let Some(i) = lines[k].find("fn ") {
-            let before = &lines[k][..i];
-            if before.trim_start().starts_with("//") { continue; }
-            let name: String = lines[k][i + 3..].chars().take_while(|c| c.is_alphanumeric() || *c == '_').collect();
-            if !name.is_empty() { return Some(name); }
-        }
-    }
-    None
-}
-
-/// class of a panic: `c16-panic:<function>:<normalised message>` (no line numbers: they move with unrelated edits)
-fn panic_class(site: &str, msg: &str, bt: &str) -> String {
-    let file = site.rsplitn(3, ':').nth(2).unwrap_or(site);
-    let whr = truth_frame(bt).or_else(|| enclosing_fn(site).map(|f| format!("{}::{}", short_path(file), f))).unwrap_or_else(|| short_path(file));
-    format!("c16-panic:{}:{}", whr, norm_msg(msg))
-}
-
-fn classify_cli(rc: Option<i32>, timed_out: bool, stderr: &str, fname: &str, ctx: &str) -> Outcome {
-    let tail = |n: usize| -> String { let l: Vec<&str> = stderr.lines().filter(|l| !l.trim().is_empty()).collect(); l[l.len().saturating_sub(n)..].join(" | ") };
-    if timed_out { return Outcome { ok: false, class: format!("c16-timeout:{}", ctx), detail: "no exit within 10 s".into(), rc: 124 }; }
-    if let Some(i) = stderr.find("panicked at ") {
-        let rest = &stderr[i + 12..];
-        let site = rest.lines().next().unwrap_or("").trim_end_matches(':').to_string();
-        let msg = rest.lines().nth(1).unwrap_or("").to_string();
-        return Outcome { ok: false, class: panic_class(&site, &msg, rest), detail: format!("panicked at {}: {}", site, msg), rc: rc.unwrap_or(-1) };
-    }
-    if stderr.contains("memory allocation of") && stderr.contains("failed") {
-        return Outcome { ok: false, class: format!("c16-alloc:{}", ctx), detail: tail(2), rc: rc.unwrap_or(-1) };
-    }
-    if stderr.contains("has overflowed its stack") { return Outcome { ok: false, class: "c16-stack-overflow".into(), detail: tail(2), rc: rc.unwrap_or(-1) }; }
-    match rc {
-        None => Outcome { ok: false, class: "c16-signal".into(), detail: format!("killed by a signal; {}", tail(2)), rc: -1 },
-        Some(0) => Outcome { ok: true, class: "ok".into(), detail: String::new(), rc: 0 },
-        Some(c) if c >= 124 => Outcome { ok: false, class: format!("c16-signal:{}", c), detail: tail(2), rc: c },
-        Some(c) => {
-            let has_err = stderr.lines().any(|l| l.starts_with("error"));
-            if !has_err { Outcome { ok: false, class: "c16-silent-failure".into(), detail: format!("exit {} without an error diagnostic; {}", c, tail(2)), rc: c } }
-            else if !stderr.contains(fname) && !stderr.contains("xout") { Outcome { ok: false, class: "c16-error-without-filename".into(), detail: tail(3), rc: c } }
-            else { Outcome { ok: true, class: "err".into(), detail: String::new(), rc: c } }
-        },
-    }
-}
+// running through the command line (fork server, see forkrun.rs; the exec'd binary for samples and confirmation)
 
 fn cli_bin(release: bool) -> PathBuf {
     let exe = std::env::current_exe().unwrap();
@@ -372,63 +270,92 @@ fn cli_bin(release: bool) -> PathBuf {
     target.join(if release { "release" } else { "debug" }).join("truth-cli")
 }
 
-fn run_cli(dir: &Path, seed: &Seed, m_bytes: &[u8], action: &str, opts: &[&str], release: bool) -> Outcome {
+fn cli_args(dir: &Path, seed: &Seed, bytes: &[u8], action: &str, opts: &[&str]) -> (Vec<String>, String) {
     let fname = format!("in.{}", ext_of(&seed.tool));
-    let inp = dir.join(&fname);
-    std::fs::write(&inp, m_bytes).expect("write mutant");
-    let errp = dir.join("stderr.txt");
-    let errf = std::fs::File::create(&errp).expect("stderr file");
+    std::fs::write(dir.join(&fname), bytes).expect("write mutant");
     let mut args: Vec<String> = vec![seed.tool.clone(), action.to_string(), "-g".into(), seed.game.clone(), fname.clone()];
     if action == "extract" {
-        let out = dir.join("xout"); let _ = std::fs::remove_dir_all(&out);
+        let _ = std::fs::remove_dir_all(dir.join("xout"));
         args.push("-o".into()); args.push("xout".into());
     } else {
         for f in &seed.flags { args.push(f.clone()); }
         for o in opts { args.push(o.to_string()); }
     }
-    // address-space limit 2 GiB (ulimit -v is in KiB); core dumps off
-    let script = "ulimit -v 2097152; ulimit -c 0; exec \"$0\" \"$@\"";
-    let mut child = Command::new("sh").arg("-c").arg(script).arg(cli_bin(release)).args(&args)
-        .current_dir(dir).env("RUST_BACKTRACE", "1").env("RUST_LIB_BACKTRACE", "0").env_remove("TRUTH_MAP_PATH")
-        .stdin(Stdio::null()).stdout(Stdio::null()).stderr(Stdio::from(errf)).spawn().expect("spawn");
-    let t0 = Instant::now(); let mut timed_out = false;
-    let status = loop {
-        match child.try_wait() {
-            Ok(Some(st)) => break Some(st),
-            Ok(None) => {
-                if t0.elapsed() > Duration::from_secs(10) { let _ = child.kill(); let _ = child.wait(); timed_out = true; break None; }
-                std::thread::sleep(Duration::from_micros(if t0.elapsed() < Duration::from_millis(50) { 300 } else { 5000 }));
-            },
-            Err(_) => break None,
-        }
-    };
-    let stderr = std::fs::read(&errp).map(|b| String::from_utf8_lossy(&b[..b.len().min(200_000)]).to_string()).unwrap_or_default();
-    classify_cli(status.and_then(|s| s.code()), timed_out, &stderr, &fname, &format!("{}:{}", seed.tool, action))
+    (args, fname)
 }
 
-fn run_all_cli(seeds: &[Seed], muts: Vec<Mutant>, release: bool, tag: &str) {
-    let work = work_dir("c16");
-    let nthreads = std::thread::available_parallelism().map(|n| n.get()).unwrap_or(8).min(16);
-    let muts = Arc::new(muts); let seeds = Arc::new(seeds.to_vec());
-    let next = Arc::new(AtomicUsize::new(0));
-    let results: Arc<Mutex<Vec<(usize, Outcome)>>> = Arc::new(Mutex::new(vec![]));
-    let mut hs = vec![];
-    for t in 0..nthreads {
-        let (muts, seeds, next, results) = (muts.clone(), seeds.clone(), next.clone(), results.clone());
-        let dir = work.join(format!("{}w{}", tag, t)); let _ = std::fs::create_dir_all(&dir);
-        hs.push(std::thread::spawn(move || {
-            loop {
-                let i = next.fetch_add(1, Ordering::SeqCst);
-                if i >= muts.len() { break; }
-                let m = &muts[i];
-                let o = run_cli(&dir, &seeds[m.seed], &m.bytes, m.action, &m.opts, release);
-                if !o.ok || m.kind == "seed" { results.lock().unwrap().push((i, o)); }
-            }
-        }));
+fn run_one(dir: &Path, seed: &Seed, bytes: &[u8], action: &str, opts: &[&str], exec: Option<bool>) -> Outcome {
+    let (args, fname) = cli_args(dir, seed, bytes, action, opts);
+    let r = match exec { None => run_forked(dir, &args), Some(release) => run_exec(dir, &cli_bin(release), &args, false) };
+    let mut o = classify("c16", &r, &[&fname, "xout"], &format!("{}:{}", seed.tool, action));
+    if exec.is_some() && !o.ok && o.class.contains("-panic:") && !o.detail.contains(&repo_root()) {
+        // a panic outside truth's sources: one more run with a backtrace to name the truth function
+        let r2 = run_exec(dir, &cli_bin(exec.unwrap()), &args, true);
+        let o2 = classify("c16", &r2, &[&fname, "xout"], &format!("{}:{}", seed.tool, action));
+        if o2.class.contains("-panic:") { o = o2; }
     }
-    for h in hs { let _ = h.join(); }
-    let mut res = results.lock().unwrap().clone(); res.sort_by_key(|r| r.0);
-    report(&seeds, &muts, &res, if release { "cli-release" } else { "cli" });
+    o
+}
+
+fn worker(seeds: &[Seed], muts: &[Mutant], k: usize, n: usize) {
+    let dir = work_dir("c16").join(format!("fw{}", k)); let _ = std::fs::create_dir_all(&dir);
+    let mut cnt = 0usize;
+    for (i, m) in muts.iter().enumerate() {
+        if i % n != k { continue; }
+        let mut o = run_one(&dir, &seeds[m.seed], &m.bytes, m.action, &m.opts, None);
+        if o.class.contains("-timeout") {
+            // wall-clock alarm under a loaded machine: only a repeated timeout counts
+            o = run_one(&dir, &seeds[m.seed], &m.bytes, m.action, &m.opts, None);
+        }
+        cnt += 1;
+        if !o.ok || m.kind == "seed" { println!("R\t{}\t{}\t{}\t{}\t{}", i, o.ok, o.class, o.detail.replace('\t', " ").replace('\n', " "), o.rc); }
+    }
+    println!("WDONE\t{}\t{}", k, cnt);
+}
+
+fn master(manifest: &str, seeds: &[Seed], muts: &[Mutant], budget: usize, tier: &str, nexec: usize, mode: &str) {
+    let nw = std::thread::available_parallelism().map(|n| n.get()).unwrap_or(8).min(16);
+    let exe = std::env::current_exe().unwrap();
+    let mut children = vec![];
+    for k in 0..nw {
+        let c = Command::new(&exe).args(["worker", &k.to_string(), &nw.to_string(), manifest, &budget.to_string(), tier])
+            .stdin(Stdio::null()).stdout(Stdio::piped()).stderr(Stdio::inherit()).spawn().expect("spawn worker");
+        children.push(c);
+    }
+    let mut res: Vec<(usize, Outcome)> = vec![]; let mut done = 0usize; let mut workers_ok = 0;
+    for c in children {
+        let out = c.wait_with_output().expect("worker output");
+        for l in String::from_utf8_lossy(&out.stdout).lines() {
+            let f: Vec<&str> = l.split('\t').collect();
+            if f[0] == "R" && f.len() >= 6 {
+                res.push((f[1].parse().unwrap_or(0), Outcome { ok: f[2] == "true", class: f[3].to_string(), detail: f[4].to_string(), rc: f[5].parse().unwrap_or(-1) }));
+            } else if f[0] == "WDONE" { done += f[2].parse::<usize>().unwrap_or(0); workers_ok += 1; }
+        }
+    }
+    if workers_ok != nw || done != muts.len() { println!("HARNESS-ERROR\tworkers finished {}/{} with {} of {} mutants", workers_ok, nw, done, muts.len()); }
+    res.sort_by_key(|r| r.0);
+    report(seeds, muts, &res, mode);
+    // the same mutants through the real binary: every failure class (first examples) and a random sample
+    let release = mode.contains("release");
+    let dir = work_dir("c16").join("exec"); let _ = std::fs::create_dir_all(&dir);
+    let mut per_class: BTreeMap<String, usize> = BTreeMap::new();
+    let mut confirm: Vec<(usize, String)> = vec![];
+    for (i, o) in &res { if !o.ok { let c = per_class.entry(o.class.clone()).or_insert(0); *c += 1; if *c <= 2 { confirm.push((*i, o.class.clone())); } } }
+    let mut rng = Rng::new(seed_from_env() ^ 0xC16);
+    for _ in 0..nexec { confirm.push((rng.below(muts.len() as u64) as usize, String::new())); }
+    let failing: std::collections::BTreeMap<usize, String> = res.iter().filter(|(_, o)| !o.ok).map(|(i, o)| (*i, o.class.clone())).collect();
+    let (mut agree, mut disagree) = (0, 0);
+    for (i, _) in &confirm {
+        let m = &muts[*i];
+        let o = run_one(&dir, &seeds[m.seed], &m.bytes, m.action, &m.opts, Some(release));
+        let expect = failing.get(i).cloned().unwrap_or_else(|| "pass".into());
+        let got = if o.ok { "pass".to_string() } else { o.class.clone() };
+        if expect == got { agree += 1; } else {
+            disagree += 1;
+            println!("EXEC-DIFF\t{}\tfork={}\texec={}\t{}\t{}\t{} {}\t{}", mode, expect, got, o.detail, seeds[m.seed].tool, seeds[m.seed].name, m.desc, hex(&m.bytes));
+        }
+    }
+    println!("STATS\t{}-exec\tconfirmed_through_truth-cli={}\tdisagreements={}", mode, agree, disagree);
 }
 
 fn report(seeds: &[Seed], muts: &[Mutant], res: &[(usize, Outcome)], mode: &str) {
@@ -439,22 +366,23 @@ fn report(seeds: &[Seed], muts: &[Mutant], res: &[(usize, Outcome)], mode: &str)
         *per_tool.entry(format!("{}-g{}{}:{}", seeds[m.seed].tool, seeds[m.seed].game, seeds[m.seed].flags.join(""), m.action)).or_insert(0) += 1;
     }
     let mut per_class: BTreeMap<String, usize> = BTreeMap::new();
-    let mut seed_fail = 0;
+    let mut seed_fail = 0; let mut nfail = 0;
     for (i, o) in res {
         let m = &muts[*i]; let s = &seeds[m.seed];
         if m.kind == "seed" {
-            // an unmodified bundled / compiled file has to be read back without error
+            // an unmodified bundled / compiled file is expected to be read back without error
             if o.ok && o.rc == 0 { continue; }
-            if o.ok { seed_fail += 1; println!("SEEDERR\t{}\t{}\t{}\t{}", mode, s.name, m.opts.join(","), o.rc); continue; }
+            if o.ok { seed_fail += 1; println!("SEEDERR\t{}\t{}\t{}\t{}\t{}", mode, s.name, m.action, m.opts.join(","), o.rc); continue; }
         }
+        if o.ok { continue; }
+        nfail += 1;
         *per_class.entry(o.class.clone()).or_insert(0) += 1;
         if per_class[&o.class] <= 3 {
             println!("FAIL\t{}\t{}\t{}\t{}\t{}\t{}\t{}\t{}\t{}\t{}", mode, o.class, o.detail.replace('\t', " "), s.tool, s.game, s.flags.join(","), m.action,
                      m.opts.join(","), format!("{} {}", s.name, m.desc), hex(&m.bytes));
         }
     }
-    let n_ok = muts.len() - res.iter().filter(|(i, o)| !o.ok && { let _ = i; true }).count();
-    println!("STATS\t{}\ttotal={}\tok_or_diagnostic={}\tseed_errors={}\tkinds={:?}\tconfigs={:?}\tclasses={:?}", mode, muts.len(), n_ok, seed_fail, hist, per_tool, per_class);
+    println!("STATS\t{}\ttotal={}\tok_or_diagnostic={}\tseed_errors={}\tkinds={:?}\tconfigs={:?}\tclasses={:?}", mode, muts.len(), muts.len() - nfail, seed_fail, hist, per_tool, per_class);
 }
 
 // -------------------------------------------------------------------------------------------------
@@ -558,9 +486,9 @@ fn run_all_inproc(seeds: &[Seed], muts: Vec<Mutant>) {
         let o = match r {
             Ok(true) => Outcome { ok: true, class: "ok".into(), detail: String::new(), rc: 0 },
             Ok(false) => Outcome { ok: true, class: "err".into(), detail: String::new(), rc: 1 },
-            Err((site, msg, bt)) => Outcome { ok: false, class: panic_class(&site, &msg, &bt), detail: format!("panicked at {}: {}", site, msg), rc: 101 },
+            Err((site, msg, bt)) => Outcome { ok: false, class: panic_class("c16", &site, &msg, &bt), detail: format!("panicked at {}: {}", site, msg), rc: 101 },
         };
-        let o = if t0.elapsed() > Duration::from_secs(10) { Outcome { ok: false, class: "c16-timeout".into(), detail: format!("{:?}", t0.elapsed()), rc: 124 } } else { o };
+        let o = if t0.elapsed() > Duration::from_secs(10) { Outcome { ok: false, class: format!("c16-timeout:{}:{}", seeds[m.seed].tool, m.action), detail: format!("{:?}", t0.elapsed()), rc: 124 } } else { o };
         if !o.ok || m.kind == "seed" { res.push((i, o)); }
     }
     report(seeds, &muts, &res, "inproc");
@@ -677,36 +605,52 @@ fn corr(seeds: &[Seed], n: usize, rng: &mut Rng) {
 
 fn main() {
     let args: Vec<String> = std::env::args().collect();
-    truth::setup_for_test_harness();
     let mut rng = Rng::new(seed_from_env());
+    let get = |i: usize| -> String { args.get(i).cloned().unwrap_or_default() };
     match args.get(1).map(|s| s.as_str()) {
-        Some("cli") | Some("inproc") => {
+        Some("fuzz") => {
+            // c16 fuzz <manifest> <budget> <tier> <n exec'd samples>
             let seeds = load_manifest(&args[2]);
-            let budget: usize = args.get(3).and_then(|s| s.parse().ok()).unwrap_or(1000);
-            let tier = args.get(4).map(|s| s.as_str()).unwrap_or("quick");
-            let release = args.get(5).map(|s| s == "release").unwrap_or(false);
-            let muts = generate(&seeds, budget, tier, &mut rng);
-            if args[1] == "cli" { run_all_cli(&seeds, muts, release, if release { "r" } else { "d" }); } else { run_all_inproc(&seeds, muts); }
+            let budget: usize = get(3).parse().unwrap_or(1000);
+            let tier = get(4);
+            let muts = generate(&seeds, budget, &tier, &mut rng);
+            let mode = if cfg!(debug_assertions) { "cli" } else { "cli-release" };
+            master(&args[2], &seeds, &muts, budget, &tier, get(5).parse().unwrap_or(50), mode);
+        },
+        Some("worker") => {
+            let (k, n): (usize, usize) = (get(2).parse().unwrap(), get(3).parse().unwrap());
+            let seeds = load_manifest(&args[4]);
+            let budget: usize = get(5).parse().unwrap_or(1000);
+            let muts = generate(&seeds, budget, &get(6), &mut rng);
+            worker(&seeds, &muts, k, n);
+        },
+        Some("inproc") => {
+            truth::setup_for_test_harness();
+            let seeds = load_manifest(&args[2]);
+            let muts = generate(&seeds, get(3).parse().unwrap_or(1000), &get(4), &mut rng);
+            run_all_inproc(&seeds, muts);
         },
         Some("corr") => {
+            truth::setup_for_test_harness();
             let seeds = load_manifest(&args[2]);
-            corr(&seeds, args.get(3).and_then(|s| s.parse().ok()).unwrap_or(50), &mut rng);
+            corr(&seeds, get(3).parse().unwrap_or(50), &mut rng);
         },
         Some("replay") => {
-            // c16 replay <tool> <game> <flags,> <action> <opts,> <hexfile> [release]
+            // c16 replay <tool> <game> <flags,> <action> <opts,> <hexfile>: fork server, exec'd binary and library
             let split = |s: &str| -> Vec<String> { s.split(',').filter(|x| !x.is_empty()).map(|x| x.to_string()).collect() };
             let bytes = unhex(std::fs::read_to_string(&args[7]).expect("hex file").trim());
             let seed = Seed { path: String::new(), name: "replay".into(), tool: args[2].clone(), game: args[3].clone(), flags: split(&args[4]), bytes: bytes.clone() };
             let action: &'static str = if args[5] == "extract" { "extract" } else { "decompile" };
             let opts_owned = split(&args[6]);
             let opts: Vec<&'static str> = DECOMP_OPTS.iter().flat_map(|o| o.iter()).filter(|o| opts_owned.iter().any(|x| x == *o)).cloned().collect::<std::collections::BTreeSet<_>>().into_iter().collect();
-            let release = args.get(8).map(|s| s == "release").unwrap_or(false);
             let dir = work_dir("c16").join("replay"); let _ = std::fs::create_dir_all(&dir);
-            let o = run_cli(&dir, &seed, &bytes, action, &opts, release);
-            let m = Mutant { seed: 0, kind: "replay", desc: "replay".into(), bytes, opts, action };
-            report(&[seed], &[m], &[(0, o)], if release { "cli-release" } else { "cli" });
+            let m = Mutant { seed: 0, kind: "replay", desc: "replay".into(), bytes: bytes.clone(), opts: opts.clone(), action };
+            let o = run_one(&dir, &seed, &bytes, action, &opts, None);
+            report(&[seed.clone()], &[m.clone()], &[(0, o)], "cli");
+            let o = run_one(&dir, &seed, &bytes, action, &opts, Some(false));
+            report(&[seed], &[m], &[(0, o)], "cli-exec");
         },
-        _ => { eprintln!("usage: c16 cli|inproc <manifest> <budget> <tier> [release] | corr <manifest> <n> | replay ..."); std::process::exit(2); },
+        _ => { eprintln!("usage: c16 fuzz|inproc <manifest> <budget> <tier> | corr <manifest> <n> | replay ..."); std::process::exit(2); },
     }
     let _ = std::io::stdout().flush();
 }
